@@ -115,6 +115,10 @@ impl Fetcher {
         if node == self.local_node {
             return;
         }
+        // N.b. a node is counted once: its first result stands
+        if self.results.get(&node).is_some() {
+            return;
+        }
         let reason = reason.to_string();
         self.results.push(node, FetchResult::Failed { reason })
     }
@@ -134,6 +138,10 @@ impl Fetcher {
     ) -> ControlFlow<Success, Progress> {
         // N.b. the local node is never fetched from, so it is never counted
         if node == self.local_node {
+            return self.finished();
+        }
+        // N.b. a node is counted once: its first result stands
+        if self.results.get(&node).is_some() {
             return self.finished();
         }
         self.results.push(node, result);
